@@ -233,15 +233,22 @@ def replay(rep: Report, path: str) -> None:
     from unit_scaling.formats import FPFormat
 
     E, M = e[0], e[1]
+    evs = [e]
     if e[2] == 0:
         x = torch.from_numpy(np.array([e[5] | (e[4] << 31)], dtype=np.uint32).view(np.float32))
         q = FPFormat(E, M, rounding="nearest").quantise(x)
         qs, qm = quant.bits(q)
         e = [E, M, 0, 0, e[4], e[5], int(qm[0]), 0, int(qs[0]), 0]
-    r = common.validate_traces("Quantise_Trace", "Quantise_Trace.cfg", [e], tag="qrp")
+        evs = [e]
+    elif e[2] == 6:     # range properties: recompute from the current code
+        evs = [v for v in range_events() if v[0] == E and v[1] == M]
+        e = evs[0]
+    elif e[2] == 3:     # API observations: recompute all of them
+        evs = [v for v in api_events(random.Random(common.seed() * 7919 + 13)) if v[2] == 3]
+    r = common.validate_traces("Quantise_Trace", "Quantise_Trace.cfg", evs, tag="qrp")
     rep.add_trace_result(r)
     rep.case(tuple(e))
     rep.case("replay")
     rep.sample(e)
     for (l, clause) in r["fails"]:
-        rep.violation(f"replayed event rejected: {clause}", {"event": e, "clause": clause}, key=f"{clause}:E{E}M{M}:kind{e[2]}")
+        rep.violation(f"replayed event rejected: {clause}", {"event": evs[l - 1], "clause": clause}, key=f"{clause}:E{E}M{M}:kind{e[2]}")
